@@ -8,6 +8,8 @@ B  unary ops x all 85 lshapes x groups, constructors.
 C  every name in HANDLED_FUNCTIONS: result type / ltype / warnings vs torch_function (tf_bad), values vs raw torch.
 D  retain_ltype / pp.func.jacrev: random bodies with nesting and injected exceptions vs Model/Patch.v (patch_bad).
 E  non-mutation sweep over the public API + write sets vs the effect model (eff_bad).
+F  dtype clause: every op / accessor / converter / constructor x operand dtypes {f64, f32, f16, bf16} x process default
+   dtype {float32, float64}: documented result dtype, independence of the process default (oracle from the docs only).
 The defects repaired by c362486, 9407769, 146d9a5, 613c139, 084bc81 stay in as directed regression cases.
 """
 import itertools, math, random, warnings, copy, importlib
@@ -16,7 +18,7 @@ from ..common import *
 from ..lie import *
 
 RULE = ('a case is (lshape pair, group, op) [exhaustive over rank<=3, extents 0..3], (lshape, group, unary op), '
-        '(handled function, call form), (retain_ltype body tree), (public function, argument class); exact comparison '
+        '(handled function, call form), (retain_ltype body tree), (public function, argument class), (op, ltype, lshape, operand dtypes, process default dtype); exact comparison '
         'for polynomial ops on exactly representable items, 64 eps for ops through Exp/Log; non-trivial = batch with '
         'more than one item or a broadcast / empty / rank-0 edge')
 
@@ -1333,6 +1335,311 @@ def part_purity(ctx, pp, torch, files2, meta2):
 PARTS.append(part_purity)
 
 
+# ------------------------------------------------------------------------------------------------ part F
+# dtype clause ("returns the documented ... dtype") swept over operand dtypes x process default dtypes: every unary /
+# binary LieTensor op, accessor, converter and constructor, every call form, lshapes of rank 0 / batch with an identity
+# item / empty / rank 3.  Oracle (from the documentation, nothing of the implementation):
+#   * result dtype = dtype of the tensor operand(s) (torch.promote_types for mixed operands), = the explicit dtype=
+#     argument when one is given, = torch.get_default_dtype() only where the docstring says so (identity_* / randn_*
+#     constructors and identity_like without dtype=);
+#   * result type / ltype / shape do not depend on the dtype (reference: the float64 call);
+#   * for operands of explicit dtype, neither the dtype nor the values depend on torch.get_default_dtype();
+#   * a call that returns for float64 operands returns for the other dtypes, except for limitations of torch kernels
+#     (DT_KERNEL_LIMITS) and for mixed operand dtypes (the autograd kernels reject them: counted, not judged);
+#   * operands are not mutated.
+DT_NAMES = ['float64', 'float32', 'float16', 'bfloat16']
+DT_LSHAPES = [(3,), (), (0,), (2, 1, 2)]
+DT_TENSOR_KINDS = ('G', 'a', 'p3', 'p4', 'M', 'e', 'v', 's', 'rawG', 'rawa')
+# raises that have nothing to do with dtype bookkeeping (torch has no low-precision kernel / the op does not exist)
+DT_KERNEL_LIMITS = ('Low precision dtypes not supported', 'not implemented for', 'no Jr attribute', 'Instance has no')
+DT_IDENT = {'SO3': [0., 0., 0., 1.], 'SE3': [0.] * 6 + [1.], 'RxSO3': [0., 0., 0., 1., 1.], 'Sim3': [0.] * 6 + [1., 1.]}
+
+
+def dt_operand(pp, torch, g, kind, ls, dtype, slot):
+    """deterministic operand (function of its arguments only, so that replay rebuilds it); computed in float64, then
+    converted; a batch of >= 2 items starts with the identity / zero item (the guarded branches share the batch)"""
+    if kind == 'L':
+        return tuple(ls)
+    if kind == 'D':
+        return dtype
+    rng = random.Random('C06-dtype|%s|%s|%s|%d' % (g, kind, tuple(ls), slot))
+    n, D = numel(ls), torch.float64
+
+    def ten(items, tail):
+        if n == 0:
+            return torch.zeros(tuple(ls) + tail, dtype=D).to(dtype)
+        return torch.tensor(items, dtype=D).reshape(tuple(ls) + tail).to(dtype)
+    if kind in ('G', 'rawG', 'M'):
+        items = [generic_elt(rng, g, torch, D) for _ in range(n)]
+        if n >= 2:
+            items[0] = list(DT_IDENT[g])
+        if kind == 'M':
+            k = 3 if g == 'SO3' else 4
+            return ten([[float(v) for v in ref_matrix(g, x)] for x in items], (k, k))
+        t = ten(items, (GDIM[g],))
+        return t if kind == 'rawG' else pp.LieTensor(t, ltype=getattr(pp, g + '_type'))
+    if kind in ('a', 'rawa'):
+        items = [[dy(rng, 5, 0.75) for _ in range(ADIM[g])] for _ in range(n)]
+        if n >= 2:
+            items[0] = [0.0] * ADIM[g]
+        t = ten(items, (ADIM[g],))
+        return t if kind == 'rawa' else pp.LieTensor(t, ltype=getattr(pp, ALG[g] + '_type'))
+    if kind == 'p3':
+        return ten([[dy(rng, 4, 2.0) for _ in range(3)] for _ in range(n)], (3,))
+    if kind == 'p4':
+        return ten([[dy(rng, 4, 2.0) for _ in range(3)] + [1.0] for _ in range(n)], (4,))
+    if kind == 'e':
+        return ten([[dy(rng, 5, 1.0) for _ in range(3)] for _ in range(n)], (3,))
+    if kind == 'v':
+        return ten([[dy(rng, 4, 2.0) for _ in range(3)] for _ in range(n)], (3,))
+    if kind == 's':
+        return ten([[dy(rng, 3, 2.0)] for _ in range(n)], (1,))
+    raise KeyError(kind)
+
+
+def dt_specs(pp, torch, g):
+    """(name, operand kinds, rule, deterministic, [(call text, callable)...]) for group g and its algebra.
+    rule: 'operand' = (promoted) dtype of the tensor operands, 'explicit' = the dtype= argument, 'default' = the
+    process default (documented for constructors / identity_like), 'self' = dtype of the first operand (in place)"""
+    G, A = getattr(pp, g + '_type'), getattr(pp, ALG[g] + '_type')
+    al = ALG[g]
+    S = []
+
+    def add(name, kinds, rule, det, *forms):
+        S.append((name, kinds, rule, det, list(forms)))
+    # ---- unary on the group
+    add('Log', ('G',), 'operand', True, ('X.Log()', lambda X: X.Log()), ('pp.Log(X)', lambda X: pp.Log(X)))
+    add('Inv', ('G',), 'operand', True, ('X.Inv()', lambda X: X.Inv()), ('pp.Inv(X)', lambda X: pp.Inv(X)))
+    add('matrix', ('G',), 'operand', True, ('X.matrix()', lambda X: X.matrix()), ('pp.matrix(X)', lambda X: pp.matrix(X)))
+    add('rotation', ('G',), 'operand', True, ('X.rotation()', lambda X: X.rotation()), ('pp.rotation(X)', lambda X: pp.rotation(X)))
+    add('translation', ('G',), 'operand', True, ('X.translation()', lambda X: X.translation()), ('pp.translation(X)', lambda X: pp.translation(X)))
+    add('scale', ('G',), 'operand', True, ('X.scale()', lambda X: X.scale()), ('pp.scale(X)', lambda X: pp.scale(X)))
+    add('euler', ('G',), 'operand', True, ('X.euler()', lambda X: X.euler()), ('pp.euler(X)', lambda X: pp.euler(X)))
+    add('tensor', ('G',), 'operand', True, ('X.tensor()', lambda X: X.tensor()), ('pp.tensor(X)', lambda X: pp.tensor(X)))
+    add('Jr', ('G',), 'operand', True, ('X.Jr()', lambda X: X.Jr()), ('pp.Jr(X)', lambda X: pp.Jr(X)))
+    add('quat2unit', ('G',), 'operand', True, ('pp.quat2unit(X)', lambda X: pp.quat2unit(X)))
+    add('cumprod', ('G',), 'operand', True, ('pp.cumprod(X, 0)', lambda X: pp.cumprod(X, 0)), ('X.cumprod(0)', lambda X: X.cumprod(0)))
+    add('cummul', ('G',), 'operand', True, ('pp.cummul(X, 0)', lambda X: pp.cummul(X, 0)), ('X.cummul(0)', lambda X: X.cummul(0)))
+    add('cumops', ('G',), 'operand', True, ('pp.cumops(X, 0, lambda a, b: a @ b)', lambda X: pp.cumops(X, 0, lambda a, b: a @ b)))
+    add('identity_', ('G',), 'self', True, ('X.identity_()', lambda X: X.identity_()))
+    add('identity_like', ('G',), 'default', True, ('pp.identity_like(X)', lambda X: pp.identity_like(X)))
+    add('identity_like(dtype=)', ('G', 'D'), 'explicit', True, ('pp.identity_like(X, dtype=d)', lambda X, d: pp.identity_like(X, dtype=d)))
+    add('randn_like', ('G',), 'operand', False, ('pp.randn_like(X)', lambda X: pp.randn_like(X)), ('pp.randn_like(X, sigma=0.5)', lambda X: pp.randn_like(X, sigma=0.5)))
+    add('randn_like(dtype=)', ('G', 'D'), 'explicit', False, ('pp.randn_like(X, dtype=d)', lambda X, d: pp.randn_like(X, dtype=d)))
+    # ---- unary on the algebra
+    add('Exp', ('a',), 'operand', True, ('a.Exp()', lambda a: a.Exp()), ('pp.Exp(a)', lambda a: pp.Exp(a)))
+    add('Inv[alg]', ('a',), 'operand', True, ('a.Inv()', lambda a: a.Inv()), ('pp.Inv(a)', lambda a: pp.Inv(a)))
+    add('matrix[alg]', ('a',), 'operand', True, ('a.matrix()', lambda a: a.matrix()), ('pp.matrix(a)', lambda a: pp.matrix(a)))
+    add('rotation[alg]', ('a',), 'operand', True, ('a.rotation()', lambda a: a.rotation()), ('pp.rotation(a)', lambda a: pp.rotation(a)))
+    add('translation[alg]', ('a',), 'operand', True, ('a.translation()', lambda a: a.translation()), ('pp.translation(a)', lambda a: pp.translation(a)))
+    add('scale[alg]', ('a',), 'operand', True, ('a.scale()', lambda a: a.scale()), ('pp.scale(a)', lambda a: pp.scale(a)))
+    add('euler[alg]', ('a',), 'operand', True, ('a.euler()', lambda a: a.euler()), ('pp.euler(a)', lambda a: pp.euler(a)))
+    add('tensor[alg]', ('a',), 'operand', True, ('a.tensor()', lambda a: a.tensor()), ('pp.tensor(a)', lambda a: pp.tensor(a)))
+    add('Jr[alg]', ('a',), 'operand', True, ('a.Jr()', lambda a: a.Jr()), ('pp.Jr(a)', lambda a: pp.Jr(a)))
+    add('mul-scalar[alg]', ('a',), 'operand', True, ('a * 2.0', lambda a: a * 2.0), ('pp.mul(a, 2.0)', lambda a: pp.mul(a, 2.0)), ('a.mul(0.5)', lambda a: a.mul(0.5)))
+    add('identity_like[alg]', ('a',), 'default', True, ('pp.identity_like(a)', lambda a: pp.identity_like(a)))
+    add('identity_like(dtype=)[alg]', ('a', 'D'), 'explicit', True, ('pp.identity_like(a, dtype=d)', lambda a, d: pp.identity_like(a, dtype=d)))
+    add('randn_like[alg]', ('a',), 'operand', False, ('pp.randn_like(a)', lambda a: pp.randn_like(a)))
+    add('randn_like(dtype=)[alg]', ('a', 'D'), 'explicit', False, ('pp.randn_like(a, dtype=d)', lambda a, d: pp.randn_like(a, dtype=d)))
+    # ---- binary
+    add('Mul', ('G', 'G'), 'operand', True, ('X @ Y', lambda X, Y: X @ Y), ('X * Y', lambda X, Y: X * Y), ('pp.Mul(X, Y)', lambda X, Y: pp.Mul(X, Y)), ('pp.mul(X, Y)', lambda X, Y: pp.mul(X, Y)))
+    add('Act', ('G', 'p3'), 'operand', True, ('X.Act(p)', lambda X, p: X.Act(p)), ('X @ p', lambda X, p: X @ p), ('pp.Act(X, p)', lambda X, p: pp.Act(X, p)), ('X * p', lambda X, p: X * p))
+    add('Act4', ('G', 'p4'), 'operand', True, ('X.Act(p)', lambda X, p: X.Act(p)), ('X @ p', lambda X, p: X @ p), ('pp.Act(X, p)', lambda X, p: pp.Act(X, p)))
+    add('Adj', ('G', 'a'), 'operand', True, ('X.Adj(a)', lambda X, a: X.Adj(a)), ('pp.Adj(X, a)', lambda X, a: pp.Adj(X, a)))
+    add('Adj[raw]', ('G', 'rawa'), 'operand', True, ('X.Adj(t)', lambda X, a: X.Adj(a)))
+    add('AdjT', ('G', 'a'), 'operand', True, ('X.AdjT(a)', lambda X, a: X.AdjT(a)), ('pp.AdjT(X, a)', lambda X, a: pp.AdjT(X, a)))
+    add('Jinvp', ('G', 'a'), 'operand', True, ('X.Jinvp(a)', lambda X, a: X.Jinvp(a)), ('pp.Jinvp(X, a)', lambda X, a: pp.Jinvp(X, a)))
+    add('Retr', ('G', 'a'), 'operand', True, ('X.Retr(a)', lambda X, a: X.Retr(a)), ('pp.Retr(X, a)', lambda X, a: pp.Retr(X, a)))
+    add('add', ('G', 'a'), 'operand', True, ('X + a', lambda X, a: X + a), ('pp.add(X, a)', lambda X, a: pp.add(X, a)), ('X.add(a)', lambda X, a: X.add(a)))
+    add('add[raw]', ('G', 'rawa'), 'operand', True, ('X + t', lambda X, a: X + a), ('pp.add(X, t)', lambda X, a: pp.add(X, a)))
+    add('add_', ('G', 'a'), 'self', True, ('X.add_(a)', lambda X, a: X.add_(a)), ('pp.add_(X, a)', lambda X, a: pp.add_(X, a)))
+    add('mul-tensor[alg]', ('a', 's'), 'operand', True, ('a * s', lambda a, s: a * s), ('pp.mul(a, s)', lambda a, s: pp.mul(a, s)))
+    # ---- converters and constructors
+    add('mat2' + g, ('M',), 'operand', True, ('pp.mat2%s(M, check=False)' % g, lambda M: getattr(pp, 'mat2' + g)(M, check=False)),
+        ('pp.from_matrix(M, pp.%s_type, check=False)' % g, lambda M: pp.from_matrix(M, G, check=False)))
+    add(g + '(tensor)', ('rawG',), 'operand', True, ('pp.%s(t)' % g, lambda t: getattr(pp, g)(t)), ('pp.LieTensor(t, ltype=pp.%s_type)' % g, lambda t: pp.LieTensor(t, ltype=G)))
+    add(al + '(tensor)', ('rawa',), 'operand', True, ('pp.%s(t)' % al, lambda t: getattr(pp, al)(t)), ('pp.LieTensor(t, ltype=pp.%s_type)' % al, lambda t: pp.LieTensor(t, ltype=A)))
+    for nm in (g, al):
+        add('identity_' + nm, ('L',), 'default', True, ('pp.identity_%s(*lshape)' % nm, lambda L, nm=nm: getattr(pp, 'identity_' + nm)(*L)))
+        add('identity_%s(dtype=)' % nm, ('L', 'D'), 'explicit', True, ('pp.identity_%s(*lshape, dtype=d)' % nm, lambda L, d, nm=nm: getattr(pp, 'identity_' + nm)(*L, dtype=d)))
+        add('randn_' + nm, ('L',), 'default', False, ('pp.randn_%s(*lshape)' % nm, lambda L, nm=nm: getattr(pp, 'randn_' + nm)(*L)))
+        add('randn_%s(dtype=)' % nm, ('L', 'D'), 'explicit', False, ('pp.randn_%s(*lshape, dtype=d)' % nm, lambda L, d, nm=nm: getattr(pp, 'randn_' + nm)(*L, dtype=d)),
+            ('pp.randn_%s(*lshape, sigma=0.5, dtype=d)' % nm, lambda L, d, nm=nm: getattr(pp, 'randn_' + nm)(*L, sigma=0.5, dtype=d)))
+    if g == 'SO3':
+        add('euler2SO3', ('e',), 'operand', True, ('pp.euler2SO3(e)', lambda e: pp.euler2SO3(e)))
+        add('vec2skew', ('v',), 'operand', True, ('pp.vec2skew(v)', lambda v: pp.vec2skew(v)))
+    return S
+
+
+def dt_combos(kinds):
+    """dtype names per operand ('-' for the lshape operand)"""
+    return list(itertools.product(*[(DT_NAMES if (k in DT_TENSOR_KINDS or k == 'D') else ['-']) for k in kinds]))
+
+
+def dt_eval(pp, torch, spec, g, ls, dts, dd, form):
+    """one call under torch.set_default_dtype(dd) (restored afterwards, also on exceptions) -> record"""
+    name, kinds, rule, det, forms = spec
+    text, f = forms[form % len(forms)]
+    old = torch.get_default_dtype()
+    rec = dict(text=text, err=None)
+    torch.set_default_dtype(getattr(torch, dd))
+    try:
+        ops = [dt_operand(pp, torch, g, k, ls, None if d == '-' else getattr(torch, d), i) for i, (k, d) in enumerate(zip(kinds, dts))]
+        rec['operands'] = ['%s = %s' % ('XYZ'[i] if k in ('G',) else k + str(i), dt_show(torch, o)) for i, (k, o) in enumerate(zip(kinds, ops))]
+        snap = [(i, o, raw(o.detach(), torch).clone()) for i, o in enumerate(ops) if isinstance(o, torch.Tensor)]
+        try:
+            with warnings.catch_warnings():
+                warnings.simplefilter('ignore')
+                r = f(*ops)
+            if not isinstance(r, torch.Tensor):
+                rec['err'] = 'returned %s instead of a tensor' % type(r).__name__
+            else:
+                rec.update(dtype=str(r.dtype).replace('torch.', ''), shape=tuple(r.shape), tname=type(r).__name__, ltype=ltype_name(r, torch),
+                           device=str(r.device), value=raw(r.detach(), torch).clone())
+        except Exception as e:
+            rec['err'] = repr(e)[:160]
+        rec['mutated'] = [i for i, o, c in snap if not unchanged(torch, o, c)]
+        rec['default_after'] = str(torch.get_default_dtype()).replace('torch.', '')
+    finally:
+        torch.set_default_dtype(old)
+    return rec
+
+
+def dt_show(torch, o):
+    if isinstance(o, torch.Tensor):
+        lt = ltype_name(o, torch)
+        data = raw(o.detach(), torch).to(torch.float64).tolist() if o.numel() <= 16 else '...'
+        return '%s of dtype %s, shape %s, data %s' % ((lt[:-4] + ' LieTensor') if lt else 'tensor', str(o.dtype).replace('torch.', ''), tuple(o.shape), data)
+    return str(o).replace('torch.', '')
+
+
+def dt_want(torch, kinds, rule, dts, dd):
+    tens = [d for k, d in zip(kinds, dts) if k in DT_TENSOR_KINDS]
+    if rule == 'default':
+        return dd
+    if rule == 'explicit':
+        return [d for k, d in zip(kinds, dts) if k == 'D'][0]
+    if rule == 'self':
+        return tens[0]
+    w = getattr(torch, tens[0])
+    for d in tens[1:]:
+        w = torch.promote_types(w, getattr(torch, d))
+    return str(w).replace('torch.', '')
+
+
+def dt_ref_dts(kinds, dts):
+    return tuple(('float64' if k in DT_TENSOR_KINDS else d) for k, d in zip(kinds, dts))
+
+
+def same_values(torch, a, b):
+    return a.shape == b.shape and a.dtype == b.dtype and bool(((a == b) | (a.isnan() & b.isnan())).all())
+
+
+def dt_judge(torch, spec, g, ls, dts, dd, rec, ref, twin, twin_dd):
+    """-> (tag, description or None); ref = the same call with float64 tensor operands under the same default,
+    twin = the same call under the other process default"""
+    name, kinds, rule, det, forms = spec
+    tens = [d for k, d in zip(kinds, dts) if k in DT_TENSOR_KINDS]
+    mixed = len(set(tens)) > 1
+    where = 'under torch.set_default_dtype(%s): %s with %s' % (dd, rec['text'], '; '.join(rec['operands']) if rec.get('operands') else '?')
+    if rec.get('default_after') not in (None, dd):
+        return 'bad', '%s leaves torch.get_default_dtype() = %s' % (where, rec['default_after'])
+    if rec['err']:
+        if ref is None or ref['err']:
+            return 'not-applicable', None
+        if mixed:
+            return 'mixed-operands-rejected', None
+        if any(k in rec['err'] for k in DT_KERNEL_LIMITS):
+            return 'no-torch-kernel', None
+        return 'bad', '%s raises %s although the same call with float64 operands returns' % (where, rec['err'])
+    want = dt_want(torch, kinds, rule, dts, dd)
+    why = {'operand': 'the (promoted) dtype of the operands', 'explicit': 'the dtype= argument', 'self': 'the dtype of the tensor modified in place',
+           'default': 'the process default (documented for this constructor)'}[rule]
+    if rec['dtype'] != want:
+        return 'bad', '%s returns dtype %s, documented: %s = %s' % (where, rec['dtype'], why, want)
+    if rec['device'] != 'cpu':
+        return 'bad', '%s returns a tensor on device %s, operands on cpu' % (where, rec['device'])
+    if ref is not None and not ref['err'] and (rec['shape'], rec['tname'], rec['ltype']) != (ref['shape'], ref['tname'], ref['ltype']):
+        return 'bad', '%s returns %s / ltype %s / shape %s, the same call with float64 operands %s / %s / %s' % (
+            where, rec['tname'], rec['ltype'], rec['shape'], ref['tname'], ref['ltype'], ref['shape'])
+    if rec['mutated'] and not name.rstrip(']').split('[')[0].endswith('_'):
+        return 'mutated', '%s changes the values of its operand(s) %s' % (where, rec['mutated'])
+    if twin is not None and rule != 'default':
+        if twin['err']:
+            return 'bad', '%s returns, but raises %s under torch.set_default_dtype(%s)' % (where, twin['err'], twin_dd)
+        if det and twin['dtype'] == rec['dtype'] and not same_values(torch, rec['value'], twin['value']):
+            return 'bad', '%s: result %s differs from the result %s of the same call under torch.set_default_dtype(%s)' % (
+                where, rec['value'].to(torch.float64).reshape(-1)[:8].tolist(), twin['value'].to(torch.float64).reshape(-1)[:8].tolist(), twin_dd)
+    return ('mixed-operands-promoted' if mixed else 'ok'), None
+
+
+def part_dtype(ctx, pp, torch, files2, meta2):
+    defaults = ['float32', 'float64']
+    cases = []
+    k = 0
+    for g in GROUPS:
+        for spec in dt_specs(pp, torch, g):
+            for dts in dt_combos(spec[1]):
+                for ls in DT_LSHAPES:
+                    k += 1
+                    cases.append((spec, g, ls, dts, k))
+    recs = {}
+    for dd in defaults:
+        for spec, g, ls, dts, form in cases:
+            recs[(spec[0], g, ls, dts, dd)] = dt_eval(pp, torch, spec, g, ls, dts, dd, form)
+    if torch.get_default_dtype() != torch.float32:
+        ctx.notes.append('dtype sweep: process default dtype was %s after the sweep (restored)' % torch.get_default_dtype())
+        torch.set_default_dtype(torch.float32)
+    for dd, other in (('float32', 'float64'), ('float64', 'float32')):
+        for spec, g, ls, dts, form in cases:
+            name, kinds = spec[0], spec[1]
+            rec = recs[(name, g, ls, dts, dd)]
+            # the float64 reference uses its own call form; shape / ltype do not depend on the form
+            ref = recs.get((name, g, ls, dt_ref_dts(kinds, dts), dd))
+            twin = recs[(name, g, ls, dts, other)]
+            tag, what = dt_judge(torch, spec, g, ls, dts, dd, rec, ref, twin, other)
+            low = any(d in ('float16', 'bfloat16') for d in dts)
+            ctx.case(('dtype', name, g, ls, dts, dd), nontrivial=(dd != 'float32' or any(d not in ('float32', '-') for d in dts)),
+                     branch='dtype-%s%s' % (tag, '-low-precision' if (low and tag in ('ok', 'no-torch-kernel')) else ''))
+            if tag == 'no-torch-kernel':
+                ctx.dt_skipped.add('%s %s %s' % (g, name, '/'.join(dts)))
+            if what:
+                c = dict(kind='dtype', op=name, g=g, ls=ls, dts=list(dts), default=dd, form=form)
+                fn = name.split('(')[0].split('[')[0]
+                mixed = len({d for kd, d in zip(kinds, dts) if kd in DT_TENSOR_KINDS}) > 1
+                ctx.violation('mutation:%s' % fn if tag == 'mutated' else ('dtype:mixed-operands:%s' % fn if mixed else 'dtype:%s' % fn), what, c)
+
+
+def part_dtype_outer(ctx, pp, torch, files2, meta2):
+    ctx.dt_skipped = set()
+    old = torch.get_default_dtype()
+    try:
+        part_dtype(ctx, pp, torch, files2, meta2)
+    finally:
+        torch.set_default_dtype(old)
+    if ctx.dt_skipped:
+        ops = sorted({' '.join(s.split(' ')[:2]) for s in ctx.dt_skipped})
+        ctx.notes.append('dtype sweep: op / dtype pairs skipped because torch has no kernel for the dtype (float16 / bfloat16) or the op is not '
+                         'defined for the ltype: %s' % ', '.join(ops))
+    ctx.notes.append('dtype sweep: binary group ops with operands of different dtypes raise (autograd kernels: "expected scalar type"); '
+                     'the promoted-dtype rule is judged where a result is returned (algebra * tensor)')
+
+
+PARTS.append(part_dtype_outer)
+
+
+def replay_dtype(pp, torch, c):
+    g, ls, dts, dd = c['g'], tuple(c['ls']), tuple(c['dts']), c['default']
+    other = 'float64' if dd == 'float32' else 'float32'
+    for spec in dt_specs(pp, torch, g):
+        if spec[0] == c['op']:
+            rec = dt_eval(pp, torch, spec, g, ls, dts, dd, c['form'])
+            ref = dt_eval(pp, torch, spec, g, ls, dt_ref_dts(spec[1], dts), dd, c['form'])
+            twin = dt_eval(pp, torch, spec, g, ls, dts, other, c['form'])
+            return dt_judge(torch, spec, g, ls, dts, dd, rec, ref, twin, other)[1]
+    return None
+
+
 # ------------------------------------------------------------------------------------------------ replay
 def replay(ctx, c):
     pp = import_pypose()
@@ -1409,6 +1716,8 @@ def replay(ctx, c):
         if r['leaked']:
             return 'jacrev inside jacrev leaves attribute `wrapper` in %s' % r['leaked']
         return None
+    if kind == 'dtype':
+        return replay_dtype(pp, torch, c)
     if kind == 'mutation':
         for entry in sweep_entries(pp, torch, random.Random(c['seed'])):
             if entry[0] == c['name']:
